@@ -251,6 +251,11 @@ func Propagation(p *load.Prog, r *oblig.Report, rule string, funcs []*ssa.Functi
 				if sig.Results().Len() == 1 && (strings.HasPrefix(callee, "fmt.") || strings.HasPrefix(callee, "errors.")) {
 					continue
 				}
+				// library writers documented to always return a nil error
+				if why, never := neverFails[callee]; never {
+					_ = why
+					continue
+				}
 				n++
 				construct := fmt.Sprintf("error-use:%s:%s", load.FuncName(f), callee)
 				var errVal ssa.Value = call
@@ -285,6 +290,18 @@ func Propagation(p *load.Prog, r *oblig.Report, rule string, funcs []*ssa.Functi
 	if n == 0 {
 		r.OK(rule, "error-use:none", "-", "scan", "no call returning an error in the analysed functions")
 	}
+}
+
+// neverFails: calls whose error result is documented to be always nil.
+var neverFails = map[string]string{
+	"(*strings.Builder).WriteString": "strings.Builder: \"WriteString ... returns the length of s and a nil error\"",
+	"(*strings.Builder).WriteByte":   "always nil",
+	"(*strings.Builder).WriteRune":   "always nil",
+	"(*strings.Builder).Write":       "always nil",
+	"(*bytes.Buffer).WriteString":    "\"err is always nil\"",
+	"(*bytes.Buffer).WriteByte":      "always nil",
+	"(*bytes.Buffer).WriteRune":      "always nil",
+	"(*bytes.Buffer).Write":          "\"err is always nil\"",
 }
 
 func errorHandled(f *ssa.Function, e ssa.Value) (bool, string) {
